@@ -25,7 +25,14 @@ META = {
         'that pitch, continuations only of the current pitch), so the '
         'well-formedness clause is decided for whatever the kernel returns. '
         'sequence_note_frames (set / sort / bisect over symbolic times) runs '
-        'for real. Outside: frame likelihoods (numpy linalg), transition '
+        'for real and its four return values are compared with a brute-force '
+        'description of the frames; the durations, the transition sub-matrix '
+        '(position-encoded stub) and the frame model that reach the melody '
+        'kernel, the parameter / default wiring of both entry points, and '
+        'their documented errors are decided too. Chord kernel for T >= 2: '
+        'concrete first frame and transition table, symbolic later frames '
+        '(h_chord_viterbi_steps). '
+        'Outside: frame likelihoods (numpy linalg), transition '
         'models (scipy toeplitz), transposition invariance of the whole '
         'pipeline. For '
         'the chord kernel the module tables _CHORDS/_KEY_CHORDS are replaced '
@@ -38,10 +45,14 @@ META = {
                   ('melody_inference', 'sequence_note_frames')],
     'assumptions': [
         'log-likelihoods are finite reals',
-        'chord kernel: chord table cut to 2 chords (24 key-chord states)',
+        'chord kernel: chord table cut to 2 chords (24 key-chord states); '
+        'T >= 2 only with a concrete pseudo-random prior / frame 0 / '
+        'transition table (24-way symbolic argmax chains are beyond z3)',
         'writing stages: times on a grid of quarter seconds (symbolic grid '
         'index; sets and dict keys of times force a finite domain), notes '
-        'with start < end <= total_time; stubs: sequence_note_pitch_vectors '
+        'with start < end <= total_time, drum flag / program only from the '
+        'listed alternatives; _MAX_NUM_CHORDS / MAX_NUM_FRAMES lowered to 2 '
+        'for the limit jobs; stubs: sequence_note_pitch_vectors '
         '(frame count as the real one derives it), _chord_frame_log_likelihood, '
         '_key_chord_distribution, _key_chord_transition_distribution, '
         '_key_chord_viterbi (free path: key in {C, G}, chord in {N.C., C, Fm}), '
@@ -49,21 +60,35 @@ META = {
         '_melody_viterbi (free valid path)',
     ],
     'bounds': {
-        'quick': 'melody: (T,S) in {(1,3),(2,3),(3,3),(2,5)} fully symbolic, plus '
+        'quick': 'melody: (T,S) in {(1,3),(2,3),(3,3),(2,5),(2,7)} fully symbolic, plus '
                  'the full-size kernel (128 pitches, 257 states, T=2) with a '
                  'concrete first frame / transition matrix and the last '
                  'frame\'s five boundary states symbolic; chords: T=1 with 24 '
-                 'states; chord annotations: <=3 bar frames (4/4, 3/4, 5/4, '
-                 'chords_per_bar 3) and <=2 beats on a 5-point grid, with and '
-                 'without add_key_signatures; melody notes: <=2 notes, pitches '
-                 '{60,64}, 4-point grid',
-        'thorough': 'melody (3,5),(4,3); chords T=2; chord annotations with 3 '
+                 'states fully symbolic, T=2 with symbolic second frame (4 '
+                 'concrete tables); chord annotations: <=3 bar frames (4/4, '
+                 '3/4, 2/4, 2/2, 6/8, 5/4; chords_per_bar None/1/3/4/5 or '
+                 'omitted; qpm 60/90/120/240, spq 1/2/4) and <=3 beats on a '
+                 '<=5-point grid (unquantized, or steps_per_second 4 with '
+                 'beat steps on / off the time grid), add_key_signatures '
+                 'True / False / omitted, a pre-existing chord symbol, a '
+                 'second call, beats on a bar-quantized sequence, '
+                 '_MAX_NUM_CHORDS=2, roots/kinds/keys beyond C/Fm; wiring: 4 '
+                 'chord and 5 melody parameters explicit and by default; '
+                 'melody notes: <=2 notes (0 notes; drum / programs 95, 96, '
+                 '103, 112, 127), pitches {60,64} or {0,127}, <=4-point '
+                 'grid, quantized input, MAX_NUM_FRAMES=2',
+        'thorough': 'melody (3,5),(4,3); chords T=2 fully symbolic (not '
+                    'required), T=2 with symbolic frames 0-1 and T=3 with '
+                    'symbolic frames 1-2; chord annotations with 3 '
                     'beats / 4 bar frames; melody notes from 2 notes on a '
-                    '5-point grid, 3 notes on a 4-point grid',
+                    '5-point grid, 3 notes on a 4-point grid, 2 notes with '
+                    'drums / frame limit on a 4-point grid',
     },
     'outside': ['frame likelihoods, transition models, whole-pipeline '
                 'transposition invariance', 'longer sequences',
-                'zero-length notes in melody inference'],
+                'zero-length notes in melody inference, notes ending after '
+                'total_time, -inf / nan log-likelihood entries, '
+                'sequence_note_pitch_vectors itself'],
 }
 
 
@@ -76,7 +101,7 @@ def h_melody_viterbi(c):
   mi = c.mod('melody_inference')
   np = c.np
   T, npitch = c.params['T'], c.params['P']
-  pitches = [60, 64][:npitch]
+  pitches = [60, 64, 67][:npitch]
   S = 2 * npitch + 1
   frame = _matrix(c, 'f', T, S)
   trans = _matrix(c, 't', S, S)
@@ -136,6 +161,59 @@ def h_chord_viterbi(c):
   others = [mine >= score(alt) for alt in itertools.product(range(S), repeat=T)]
   c.check(c.And(others),
           'returned key-chord path attains the maximum total log-likelihood')
+
+
+def h_chord_viterbi_steps(c):
+  """The recursion and the back-tracking of _key_chord_viterbi over T >= 2
+  frames.  With every entry symbolic the 24-way argmax chains of the second
+  frame are beyond the solver, so the first frame (key-chord prior and frame
+  0) and the transition matrix are concrete pseudo-random tables - the 24
+  back-pointers of frame 1 are then computed concretely - while the chord
+  log-likelihoods of all LATER frames are free symbolic reals (they enter
+  through np.tile(..., 12), one copy per key).  The returned path must beat
+  all 24^T alternatives, for every value of the symbolic entries."""
+  import math  # pylint: disable=g-import-not-at-top
+  ci = c.mod('chord_inference')
+  np = c.np
+  T = c.params['T']
+  chords = ['N.C.', (0, 'maj')]
+  C = len(chords)
+  S = 12 * C
+  seed = c.params.get('seed', 0)
+  saved = (ci._CHORDS, ci._KEY_CHORDS)
+  ci._CHORDS = list(chords)
+  ci._KEY_CHORDS = list(itertools.product(range(12), chords))
+  try:
+    if c.params.get('sym0'):
+      frame = [[c.real('f_0_%d' % j, -50, 50) for j in range(C)]]
+    else:
+      frame = [[-0.5 * ((3 * j + seed) % 4) for j in range(C)]]
+    for t in range(1, T):
+      frame.append([c.real('f_%d_%d' % (t, j), -50, 50) for j in range(C)])
+    kcl = [[-0.25 * ((5 * k + 3 * j + seed) % 9) for j in range(C)]
+           for k in range(12)]
+    trans = [[-0.125 * ((i * 7 + j * 11 + (i * j) % 5 + seed) % 23)
+              for j in range(S)] for i in range(S)]
+    res = ci._key_chord_viterbi(np.array(frame), np.array(kcl), np.array(trans))
+  finally:
+    ci._CHORDS, ci._KEY_CHORDS = saved
+  c.check(len(res) == T, 'one key-chord pair per frame')
+  path = [c.concretize(key) * C + chords.index(ch) for key, ch in res]
+
+  def score(p):
+    s = -math.log(12) + kcl[p[0] // C][p[0] % C] + frame[0][p[0] % C]
+    for t in range(1, T):
+      s = s + trans[p[t - 1]][p[t]] + frame[t][p[t] % C]
+    return s
+
+  # best concrete prefix per (state of frame T-2 ... ) would be the algorithm
+  # itself; the oracle is the plain enumeration of all S^T paths
+  mine = score(path)
+  others = [mine >= score(alt) for alt in itertools.product(range(S), repeat=T)]
+  c.check(c.And(others),
+          'returned key-chord path attains the maximum total log-likelihood '
+          '(T >= 2: recursion, tiled frame term, back-tracking)')
+  c.cover('key or chord changes along the path', path[0] != path[-1])
 
 
 def h_melody_viterbi_wide(c):
@@ -226,14 +304,26 @@ def h_chord_annotations(c):
   other.text = 'lyric'
   other.time = 0.5
   other.annotation_type = TA.UNKNOWN
-  cpb = None
+  cpb = c.params.get('cpb')  # beats mode: must be rejected when given
+  pre_chord = c.params.get('pre_chord')  # sequence already has a chord
+  twice = c.params.get('twice')  # a second call on the annotated sequence
+  max_chords = c.params.get('max_chords')  # _MAX_NUM_CHORDS for this run
+  # quantized_step of the beat at grid index k (absolute quantization); the
+  # default puts it on the time grid, [a, b] -> a + b k off the grid
+  step_fn = c.params.get('beat_step')
+  sps = None
   if mode == 'bars':
     spq, qpm, (num, den) = c.params['spq'], c.params['qpm'], c.params['ts']
-    cpb = c.params.get('cpb')
     seq.quantization_info.steps_per_quarter = spq
     seq.tempos.add().qpm = qpm
     ts = seq.time_signatures.add()
     ts.numerator, ts.denominator = num, den
+    # BEAT annotations on a relative-quantized sequence: the bars win
+    bks = [c.int('beat%d_k' % i, 0, K) for i in range(c.params.get('B', 0))]
+    for bk in bks:
+      ta = seq.text_annotations.add()
+      ta.time = bk * 0.25
+      ta.annotation_type = TA.BEAT
   else:
     B = c.params['B']
     sps = c.params.get('sps')  # absolute quantization: beats carry steps
@@ -244,15 +334,26 @@ def h_chord_annotations(c):
       ta = seq.text_annotations.add()
       ta.time = bk * 0.25
       ta.annotation_type = TA.BEAT
-      if sps:
+      if sps and step_fn:
+        ta.quantized_step = step_fn[0] + bk * step_fn[1]
+      elif sps:
         ta.quantized_step = bk * (sps // 4)
+  if pre_chord:
+    ta = seq.text_annotations.add()
+    ta.time = 0.25
+    ta.text = 'G7'
+    ta.annotation_type = TA.CHORD_SYMBOL
   n_before = len(seq.text_annotations)
+  old_tas = [(ta.time, ta.text, ta.annotation_type, ta.quantized_step)
+             for ta in seq.text_annotations]
   chosen = []
 
   def pitch_vectors(sequence, seconds_per_frame):
     # frame count exactly as sequence_note_pitch_vectors derives it
     if isinstance(seconds_per_frame, (int, float)):
-      n = ci.int(ci.math.ceil(sequence.total_time / seconds_per_frame))
+      # (ci.int is the engine's shadow of int; the plain module has none)
+      n = getattr(ci, 'int', int)(
+          ci.math.ceil(sequence.total_time / seconds_per_frame))
     else:
       n = len(seconds_per_frame) + 1
     return np.zeros([n.__index__() if hasattr(n, '__index__') else n, 12])
@@ -262,55 +363,126 @@ def h_chord_annotations(c):
 
   def viterbi(chord_frame_loglik, unused_a, unused_b):
     path = []
+    pre = 'again_' if chosen else ''  # (a second run of the kernel)
     for f in range(len(chord_frame_loglik)):
-      key = c.choice('key%d' % f, c.params.get('keys') or [0, 7])
-      chord = c.choice('chord%d' % f, [tuple(x) if isinstance(x, list) else x
-                                       for x in c.params.get('chords') or
-                                       ['N.C.', (0, ''), (5, 'm')]])
+      key = c.choice(pre + 'key%d' % f, c.params.get('keys') or [0, 7])
+      chord = c.choice(pre + 'chord%d' % f,
+                       [tuple(x) if isinstance(x, list) else x
+                        for x in c.params.get('chords') or
+                        ['N.C.', (0, ''), (5, 'm')]])
       path.append((key, chord))
     chosen.extend(path)
     return path
 
-  with _Stubs(ci, sequence_note_pitch_vectors=pitch_vectors,
+  repl = dict(sequence_note_pitch_vectors=pitch_vectors,
               _chord_frame_log_likelihood=frame_loglik,
               _key_chord_distribution=lambda **k: np.ones([1, 1]),
               _key_chord_transition_distribution=lambda *a, **k: np.ones([1, 1]),
-              _key_chord_viterbi=viterbi):
-    _, err = c.raises(ci.infer_chords_for_sequence, seq, chords_per_bar=cpb,
-                      add_key_signatures=add_keys)
+              _key_chord_viterbi=viterbi)
+  if max_chords is not None:
+    repl['_MAX_NUM_CHORDS'] = max_chords
+  kwargs = {}
+  if cpb is not None or not c.params.get('omit_cpb'):
+    kwargs['chords_per_bar'] = cpb
+  if add_keys != 'omit':  # 'omit': the documented default (False) applies
+    kwargs['add_key_signatures'] = add_keys
+  err2 = None
+  with _Stubs(ci, **repl):
+    _, err = c.raises(ci.infer_chords_for_sequence, seq, **kwargs)
+    if twice and err is None:
+      mid_tas = [(ta.time, ta.text, ta.annotation_type, ta.quantized_step)
+                 for ta in seq.text_annotations]
+      mid_keys = [(ks.time, ks.key) for ks in seq.key_signatures]
+      n_chosen = len(chosen)
+      _, err2 = c.raises(ci.infer_chords_for_sequence, seq, **kwargs)
+      c.check(isinstance(err2, ci.SequenceAlreadyHasChordsError),
+              'a second inference on the annotated sequence is rejected: '
+              'SequenceAlreadyHasChordsError')
+      c.check(len(chosen) == n_chosen and
+              len(seq.text_annotations) == len(mid_tas) and all(
+                  bool(c.And(c.eq(ta.time, m[0]), ta.text == m[1],
+                             c.eq(ta.annotation_type, m[2]),
+                             c.eq(ta.quantized_step, m[3])))
+                  for ta, m in zip(seq.text_annotations, mid_tas)) and
+              len(seq.key_signatures) == len(mid_keys) and all(
+                  bool(c.And(c.eq(ks.time, m[0]), c.eq(ks.key, m[1])))
+                  for ks, m in zip(seq.key_signatures, mid_keys)),
+              'the rejected second call changes nothing')
+  add_keys = bool(add_keys) and add_keys != 'omit'
   total = Fraction(c.concretize(tk), 4)
+
+  def unchanged():
+    return (len(seq.text_annotations) == n_before and all(
+        bool(c.And(c.eq(ta.time, o[0]), ta.text == o[1],
+                   c.eq(ta.annotation_type, o[2]),
+                   c.eq(ta.quantized_step, o[3])))
+        for ta, o in zip(seq.text_annotations, old_tas)) and
+            len(seq.key_signatures) == 1 and
+            bool(c.eq(seq.key_signatures[0].key, 3)) and
+            bool(c.eq(seq.total_time, tk * 0.25)))
+
+  def rejected(cls, label):
+    """The documented error `cls` - or, for a sequence that already has a
+    chord, SequenceAlreadyHasChordsError (no precedence is documented)."""
+    ok = (cls, ci.SequenceAlreadyHasChordsError) if pre_chord else cls
+    c.check(isinstance(err, ok), label)
+    c.check(unchanged(), 'a rejected sequence is left as it was')
+
   # ---- expected frame boundaries
   if mode == 'bars':
     steps_per_bar = Fraction(spq * 4 * num, den)
     eff_cpb = cpb if cpb is not None else {(2, 2): 1, (2, 4): 1, (3, 4): 1,
                                             (4, 4): 2, (6, 8): 2}.get((num, den))
     if eff_cpb is None:
-      c.check(isinstance(err, ci.UncommonTimeSignatureError),
-              'uncommon meter without chords_per_bar is rejected')
+      rejected(ci.UncommonTimeSignatureError,
+               'uncommon meter without chords_per_bar is rejected')
       return
     spc_steps = steps_per_bar / eff_cpb
     if spc_steps.denominator != 1:
-      c.check(isinstance(err, ci.NonIntegerStepsPerChordError),
-              'non-integer steps per chord rejected')
+      rejected(ci.NonIntegerStepsPerChordError,
+               'non-integer steps per chord rejected')
       return
     spc = spc_steps / (Fraction(spq) * Fraction(qpm) / 60)
     F = math.ceil(total / spc)
     if F == 0:
-      c.check(isinstance(err, ci.EmptySequenceError), 'empty sequence rejected')
+      rejected(ci.EmptySequenceError, 'empty sequence rejected')
       return
     frame_time = [f * spc for f in range(F)]
     frame_step = [f * int(spc_steps) for f in range(F)]
   else:
     beats = sorted(set(Fraction(c.concretize(bk), 4) for bk in bks))
     interior = [b for b in beats if 0 < b < total]
+    if cpb is not None:
+      rejected(sl.QuantizationStatusError,
+               'chords_per_bar on a sequence that is not quantized relative '
+               'to meter: QuantizationStatusError')
+      return
     if not bks:
-      c.check(isinstance(err, sl.QuantizationStatusError),
-              'no beats and not quantized: rejected')
+      rejected(sl.QuantizationStatusError,
+               'no beats and not quantized: rejected')
       return
     frame_time = [Fraction(0)] + interior
-    frame_step = ([int(t * c.params['sps']) for t in frame_time]
-                  if c.params.get('sps') else None)
+    if sps and step_fn:
+      frame_step = [0] + [step_fn[0] + int(4 * t) * step_fn[1]
+                          for t in interior]
+    elif sps:
+      frame_step = [int(t * sps) for t in frame_time]
+    else:
+      # unquantized sequence: the annotations carry no step
+      frame_step = [0] * len(frame_time)
     F = len(frame_time)
+  if max_chords is not None and F > max_chords:
+    rejected(ci.SequenceTooLongError,
+             'more chords than _MAX_NUM_CHORDS: SequenceTooLongError')
+    c.cover('too many chords', True)
+    return
+  if pre_chord:
+    c.check(isinstance(err, ci.SequenceAlreadyHasChordsError),
+            'a sequence that already has a chord symbol is rejected: '
+            'SequenceAlreadyHasChordsError')
+    c.check(unchanged() and not chosen,
+            'a rejected sequence is left as it was')
+    return
   c.check(err is None, 'no error for a sequence that can be annotated')
   c.check(len(chosen) == F, 'one key/chord decision per chord frame')
   figs = []
@@ -337,6 +509,13 @@ def h_chord_annotations(c):
   c.check(len(seq.text_annotations) == n_before + len(want) and
           seq.text_annotations[0].text == 'lyric',
           'existing annotations are kept')
+  c.check(all(bool(c.And(c.eq(ta.time, o[0]), ta.text == o[1],
+                         c.eq(ta.annotation_type, o[2]),
+                         c.eq(ta.quantized_step, o[3])))
+              for ta, o in zip(seq.text_annotations, old_tas)),
+          'existing annotations keep their time, text, type and step')
+  c.check(bool(c.eq(seq.total_time, tk * 0.25)),
+          'total_time of the sequence is untouched')
   if add_keys:
     wantk = [(f, chosen[f][0]) for f in range(F)
              if f == 0 or chosen[f][0] != chosen[f - 1][0]]
@@ -350,74 +529,128 @@ def h_chord_annotations(c):
     c.check(len(seq.key_signatures) == 1 and
             bool(c.eq(seq.key_signatures[0].key, 3)),
             'key signatures untouched without add_key_signatures')
+    c.check(bool(c.eq(seq.key_signatures[0].time, 0.0)),
+            'the time of the kept key signature is untouched')
   c.cover('a chord change inside the sequence', len(want) >= 2)
   c.cover('a repeated chord adds nothing', len(want) < F)
 
 
 def h_chord_wiring(c):
   """Every call of infer_chords_for_sequence hands the Viterbi kernel the
-  model of ITS OWN parameters: the distribution / transition builders are
-  replaced by stubs that encode their arguments in the value they return, the
-  kernel stub records what it receives, and two calls with different
-  parameters are made in one process."""
+  model of ITS OWN parameters: the distribution / transition builders and the
+  frame likelihood are replaced by stubs that encode their arguments in the
+  value they return, the kernel stub records what it receives, and several
+  calls with different parameters are made in one process.  A call given as
+  [po, kc, cc] leaves chord_note_concentration at its documented default, a
+  call given as [po, kc, cc, conc] passes it, and a call given as None passes
+  no keyword at all (all four documented defaults)."""
   import math  # pylint: disable=g-import-not-at-top
   ci = c.mod('chord_inference')
   pb = c.pb
   np = c.np
   seen = []
+  raw = []
+
+  def vectors(unused_sequence, unused_frames):
+    return np.full([1, 12], 3.0)
+
+  def frame_loglik(note_pitch_vectors, chord_note_concentration):
+    raw.append(('conc', chord_note_concentration))
+    return np.full([len(note_pitch_vectors), 2],
+                   chord_note_concentration + 1000 * note_pitch_vectors[0][11])
 
   def dist(chord_pitch_out_of_key_prob):
+    raw.append(('po', chord_pitch_out_of_key_prob))
     return np.array([[1.0 + chord_pitch_out_of_key_prob]])
 
   def trans(key_chord_distribution, key_change_prob, chord_change_prob):
+    raw.append(('kc', key_change_prob))
+    raw.append(('cc', chord_change_prob))
     d0 = key_chord_distribution[0][0]
     return np.array([[d0 + 10 * key_change_prob + 100 * chord_change_prob]])
 
   def viterbi(chord_frame_loglik, key_chord_loglik, key_chord_transition_loglik):
-    seen.append((key_chord_loglik[0][0], key_chord_transition_loglik[0][0]))
+    seen.append((key_chord_loglik[0][0], key_chord_transition_loglik[0][0],
+                 chord_frame_loglik[0][0], chord_frame_loglik[0][1]))
     return [(0, 'N.C.')] * len(chord_frame_loglik)
 
   calls = c.params['calls']
-  with _Stubs(ci, sequence_note_pitch_vectors=lambda s_, f_: np.zeros([1, 12]),
-              _chord_frame_log_likelihood=lambda v_, k_: np.zeros([len(v_), 2]),
+  keys_before = []
+  with _Stubs(ci, sequence_note_pitch_vectors=vectors,
+              _chord_frame_log_likelihood=frame_loglik,
               _key_chord_distribution=dist,
               _key_chord_transition_distribution=trans,
               _key_chord_viterbi=viterbi):
-    for (po, kc, cc) in calls:
+    for call in calls:
       seq = pb.NoteSequence()
       seq.quantization_info.steps_per_quarter = 4
       seq.tempos.add().qpm = 120
       ts = seq.time_signatures.add()
       ts.numerator, ts.denominator = 4, 4
+      seq.key_signatures.add().key = 5
       seq.total_time = c.real('tt%d' % len(seen), 0.25, 1)
-      ci.infer_chords_for_sequence(seq, chord_pitch_out_of_key_prob=po,
-                                   key_change_prob=kc, chord_change_prob=cc)
+      if call is None:
+        ci.infer_chords_for_sequence(seq)
+      elif len(call) == 3:
+        po, kc, cc = call
+        ci.infer_chords_for_sequence(seq, chord_pitch_out_of_key_prob=po,
+                                     key_change_prob=kc, chord_change_prob=cc)
+      else:
+        po, kc, cc, conc = call
+        ci.infer_chords_for_sequence(seq, chord_pitch_out_of_key_prob=po,
+                                     key_change_prob=kc, chord_change_prob=cc,
+                                     chord_note_concentration=conc)
+      keys_before.append((len(seq.key_signatures),
+                          seq.key_signatures[0].key
+                          if len(seq.key_signatures) else None))
   c.check(len(seen) == len(calls), 'the kernel runs once per call')
-  for (po, kc, cc), (kl, tl) in zip(calls, seen):
+  # documented defaults of the signature
+  full = [list(call) + [100.0] if call is not None and len(call) == 3 else
+          ([0.01, 0.001, 0.5, 100.0] if call is None else list(call))
+          for call in calls]
+  for (po, kc, cc, conc), (kl, tl, fl0, fl1) in zip(full, seen):
     c.check(abs(kl - math.log(1.0 + po)) < 1e-9 and
             abs(tl - math.log(1.0 + po + 10 * kc + 100 * cc)) < 1e-9,
             'the kernel receives the key-chord and transition models built '
             'from the parameters of this very call')
+    c.check(abs(fl0 - (conc + 3000.0)) < 1e-9 and abs(fl1 - fl0) < 1e-9,
+            'the kernel receives the frame log-likelihoods computed from the '
+            'pitch vectors with chord_note_concentration of this very call '
+            '(default 100)')
+  want_raw = []
+  for (po, kc, cc, conc) in full:
+    want_raw.extend([('conc', conc), ('po', po), ('kc', kc), ('cc', cc)])
+  c.check(sorted(raw) == sorted(want_raw),
+          'every model builder is called once per call with exactly the '
+          'value of its own parameter (documented defaults when omitted)')
+  c.check(all(k == (1, 5) for k in keys_before),
+          'add_key_signatures defaults to False: key signatures untouched')
 
 
 def h_melody_wiring(c):
   """Every call of infer_melody_for_sequence hands the Viterbi kernel the
   transition and frame models built from ITS OWN five parameters: the model
   builders are stubs that encode their arguments in the value they return and
-  the kernel stub records what it receives."""
+  the kernel stub records what it receives.  A call given as None passes no
+  keyword at all: the five documented defaults must reach the builders."""
   import math  # pylint: disable=g-import-not-at-top
   mi = c.mod('melody_inference')
   pb = c.pb
   np = c.np
   seen = []
+  raw = []
 
   def trans(rest_prob, interval_prob_fn):
+    raw.append((rest_prob, interval_prob_fn(1.0), interval_prob_fn(-3.0)))
     return np.full([257, 257], 1.0 + rest_prob + 10 * interval_prob_fn(1.0))
 
   def frame(pitches, has_onsets, has_notes, durations,
             instantaneous_non_max_pitch_prob,
             instantaneous_non_empty_rest_prob,
             instantaneous_missing_pitch_prob):
+    raw.append((instantaneous_non_max_pitch_prob,
+                instantaneous_non_empty_rest_prob,
+                instantaneous_missing_pitch_prob))
     return np.full([len(has_onsets), 1 + 2 * len(pitches)],
                    instantaneous_non_max_pitch_prob +
                    10 * instantaneous_non_empty_rest_prob +
@@ -430,25 +663,62 @@ def h_melody_wiring(c):
   calls = c.params['calls']
   with _Stubs(mi, _melody_transition_distribution=trans,
               _melody_frame_log_likelihood=frame, _melody_viterbi=viterbi):
-    for (scale, rest, nm, ne, mp) in calls:
+    for call in calls:
       seq = pb.NoteSequence()
       n = seq.notes.add()
       n.pitch, n.velocity = c.choice('p%d' % len(seen), [0, 60, 127]), 80
       n.start_time, n.end_time = 0.0, 1.0
       seq.total_time = 1.0
-      mi.infer_melody_for_sequence(
-          seq, melody_interval_scale=scale, rest_prob=rest,
-          instantaneous_non_max_pitch_prob=nm,
-          instantaneous_non_empty_rest_prob=ne,
-          instantaneous_missing_pitch_prob=mp)
+      if call is None:
+        mi.infer_melody_for_sequence(seq)
+      else:
+        (scale, rest, nm, ne, mp) = call
+        mi.infer_melody_for_sequence(
+            seq, melody_interval_scale=scale, rest_prob=rest,
+            instantaneous_non_max_pitch_prob=nm,
+            instantaneous_non_empty_rest_prob=ne,
+            instantaneous_missing_pitch_prob=mp)
   c.check(len(seen) == len(calls), 'the kernel runs once per call')
-  for (scale, rest, nm, ne, mp), (fl, tl) in zip(calls, seen):
+  # documented defaults of the signature
+  full = [[2.0, 0.1, 1e-15, 0.0, 1e-15] if call is None else call
+          for call in calls]
+  for (scale, rest, nm, ne, mp), (fl, tl) in zip(full, seen):
     c.check(abs(fl - (nm + 10 * ne + 100 * mp)) < 1e-9,
             'the kernel receives the frame model built from the three '
             'instantaneous probabilities of this very call')
     c.check(abs(tl - math.log(1.0 + rest + 10 / (1 + (1 / scale) ** 2))) < 1e-9,
             'the kernel receives the transition model built from rest_prob and '
             'melody_interval_scale of this very call')
+
+  def close(a, b):
+    return a == b or abs(a - b) <= 1e-12 * max(abs(a), abs(b))
+
+  want_raw = []
+  for (scale, rest, nm, ne, mp) in full:
+    want_raw.append((rest, 1 / (1 + (1.0 / scale) ** 2),
+                     1 / (1 + (3.0 / scale) ** 2)))
+    want_raw.append((nm, ne, mp))
+  c.check(len(raw) == len(want_raw) and all(
+      len(g) == 3 and all(close(x, y) for x, y in zip(g, w))
+      for g, w in zip(raw, want_raw)),
+          'each model builder gets exactly the parameters of its call, each '
+          'under its own name (relative comparison: 1e-15 is not 0.0); the '
+          'interval prior is the Cauchy-like 1 / (1 + (d / scale)^2)')
+
+
+_POS_CACHE = {}
+
+
+def _pos_matrix(np):
+  """257 x 257 matrix whose entry (i, j) is 1 + 300 i + j (all distinct, all
+  positive): a transition 'distribution' that encodes the position of every
+  entry, so that the sub-matrix handed to the kernel can be told from any
+  other selection of rows / columns.  Built once per numpy flavour."""
+  key = getattr(np, '__name__', 'np')
+  if key not in _POS_CACHE:
+    _POS_CACHE[key] = np.array([[1.0 + 300 * i + j for j in range(257)]
+                                for i in range(257)])
+  return _POS_CACHE[key]
 
 
 def h_melody_notes(c):
@@ -457,16 +727,32 @@ def h_melody_notes(c):
   symbolic grid times); the transition model, the frame likelihoods and the
   Viterbi kernel are stubs, the kernel stub choosing freely per frame among
   rest, an onset of a pitch that has an onset in that frame, and the
-  continuation of the current pitch (the paths of non-zero likelihood)."""
+  continuation of the current pitch (the paths of non-zero likelihood).
+
+  Also decided here: the four return values of sequence_note_frames against a
+  brute-force description of the frames, the frame durations and the
+  (position-encoded) transition sub-matrix that reach the model stubs / the
+  kernel, the exact notes written for the chosen path (pitch, start, end,
+  velocity), drum / unpitched-program notes being no melody material, and the
+  documented errors (quantized input, too many frames)."""
+  import math  # pylint: disable=g-import-not-at-top
   from fractions import Fraction  # pylint: disable=g-import-not-at-top
   mi = c.mod('melody_inference')
   pb = c.pb
   np = c.np
   N, K = c.params['N'], c.params['K']
+  kinds = c.params.get('kinds')  # per note: list of [is_drum, program]
+  quant = c.params.get('quant')
+  max_frames = c.params.get('max_frames')
   seq = pb.NoteSequence()
   tk = c.int('total_k', 1, K)
   seq.total_time = tk * 0.25
+  if quant == 'spq':
+    seq.quantization_info.steps_per_quarter = 4
+  elif quant == 'sps':
+    seq.quantization_info.steps_per_second = 4
   orig = []
+  kind_of = []
   for i in range(N):
     n = seq.notes.add()
     sk = c.int('n%d_s' % i, 0, K - 1)
@@ -476,18 +762,45 @@ def h_melody_notes(c):
     n.end_time = ek * 0.25
     n.pitch = c.choice('n%d_p' % i, c.params.get('pitches') or [60, 64])
     n.velocity = 80
-    n.instrument = c.choice('n%d_i' % i, [0, 8])
+    n.instrument = c.choice('n%d_i' % i, c.params.get('instruments') or [0, 8])
+    drum, prog = False, 0
+    if kinds:
+      opts = kinds[i]
+      drum, prog = opts[0] if len(opts) == 1 else c.choice('n%d_k' % i, opts)
+      if drum:
+        n.is_drum = True
+      if prog:
+        n.program = prog
+    kind_of.append((bool(drum), prog))
     orig.append((n.pitch, sk, ek, n.instrument))
+  # melody material: neither drums nor the unpitched (effect / percussive)
+  # General MIDI programs 97-104 and 113-128 (0-based 96-103, 112-127)
+  is_pitched = [not d and not (96 <= g <= 103 or 112 <= g <= 127)
+                for d, g in kind_of]
   frames = {}
   real_frames = mi.sequence_note_frames
 
   def note_frames(sequence):
     r = real_frames(sequence)
     frames['pitches'], frames['has_onsets'] = r[0], r[1]
+    frames['has_notes'] = r[2]
     frames['event_times'] = r[3]
+    frames['n_returned'] = len(r)
     return r
 
-  def viterbi(pitches, frame_loglik, unused_trans):
+  def trans_model(**kw):
+    frames['trans_kw'] = sorted(kw)
+    return _pos_matrix(np)
+
+  def frame_model(pitches, has_onsets, has_notes, durations, *a, **k):
+    frames['fm_args'] = (pitches, has_onsets, has_notes, durations)
+    # entry (f, s) = -(1 + 100 f + s): position-encoded frame log-likelihoods
+    return np.array([[-(1.0 + 100 * f + s_)
+                      for s_ in range(1 + 2 * len(pitches))]
+                     for f in range(len(has_onsets))])
+
+  def viterbi(pitches, frame_loglik, trans_loglik):
+    frames['k_args'] = (pitches, frame_loglik, trans_loglik)
     path = []
     cur = None
     for f in range(len(frame_loglik)):
@@ -503,29 +816,147 @@ def h_melody_notes(c):
     frames['path'] = path
     return path
 
-  with _Stubs(mi, sequence_note_frames=note_frames,
-              _melody_transition_distribution=lambda **k: np.ones([257, 257]),
-              _melody_frame_log_likelihood=(
-                  lambda pitches, has_onsets, *a, **k: np.zeros(
-                      [len(has_onsets), 1 + 2 * len(pitches)])),
-              _melody_viterbi=viterbi):
+  repl = dict(sequence_note_frames=note_frames,
+              _melody_transition_distribution=trans_model,
+              _melody_frame_log_likelihood=frame_model,
+              _melody_viterbi=viterbi)
+  if max_frames is not None:
+    repl['MAX_NUM_FRAMES'] = max_frames
+  with _Stubs(mi, **repl):
     inst, err = c.raises(mi.infer_melody_for_sequence, seq)
-  c.check(err is None, 'no error on an unquantized sequence with notes')
-  want_inst = max(i for _, _, _, i in orig) + 1
-  if want_inst == 9:
-    want_inst = 10
-  c.check(bool(c.eq(inst, want_inst)),
-          'melody goes to a fresh instrument (never the drum channel)')
   total = Fraction(c.concretize(tk), 4)
-  onsets = set((p, Fraction(c.concretize(sk), 4)) for p, sk, _, _ in orig)
+  co = [(c.concretize(p), Fraction(c.concretize(sk), 4),
+         Fraction(c.concretize(ek), 4)) for p, sk, ek, _ in orig]
+  # ---- the frames, described by brute force from the pitched notes
+  cuts = sorted(set(t for (_, s, e), ok in zip(co, is_pitched) if ok
+                    for t in (s, e) if 0 < t < total))
+  f_start = [Fraction(0)] + cuts
+  f_end = cuts + [total]
+  F = len(f_start)
+  exp_pitches = sorted(set(p for (p, _, _), ok in zip(co, is_pitched) if ok))
+
+  def untouched(label):
+    c.check(len(seq.notes) == N and all(
+        bool(c.And(c.eq(n.pitch, p), c.eq(n.start_time, sk * 0.25),
+                   c.eq(n.end_time, ek * 0.25), c.eq(n.instrument, i),
+                   c.eq(n.velocity, 80), c.eq(n.is_drum, d),
+                   c.eq(n.program, g)))
+        for n, (p, sk, ek, i), (d, g) in zip(seq.notes, orig, kind_of)) and
+            bool(c.eq(seq.total_time, tk * 0.25)), label)
+
+  if quant:
+    c.check(isinstance(err, mi.MelodyInferenceError),
+            'a quantized sequence is rejected with MelodyInferenceError')
+    untouched('a rejected sequence is left as it was')
+    return
+  if max_frames is not None and exp_pitches and F > max_frames:
+    c.check(isinstance(err, mi.MelodyInferenceError),
+            'more frames than MAX_NUM_FRAMES: MelodyInferenceError')
+    untouched('a rejected sequence is left as it was')
+    c.cover('too many frames', True)
+    return
+  c.check(err is None, 'no error on an unquantized sequence with notes')
+  if N and all(is_pitched):
+    want_inst = max(i for _, _, _, i in orig) + 1
+    if want_inst == 9:
+      want_inst = 10
+    c.check(bool(c.eq(inst, want_inst)),
+            'melody goes to a fresh instrument (never the drum channel)')
+  else:
+    c.check(not any(bool(c.eq(inst, i)) for _, _, _, i in orig) and
+            not bool(c.eq(inst, 9)) and bool(inst >= 0),
+            'melody instrument is a NEW instrument (used by no note of the '
+            'sequence, drum and unpitched notes included; never channel 9)')
+    want_inst = c.concretize(inst)
+  # ---- sequence_note_frames against the brute-force frames
+  if 'pitches' in frames:
+    c.check(frames['n_returned'] == 4 and
+            [c.concretize(p) for p in frames['pitches']] == exp_pitches,
+            'sequence_note_frames: the pitches present, ascending (drums and '
+            'unpitched programs are not pitches)')
+    ets = list(frames['event_times'])
+    c.check(len(ets) == len(cuts) and all(
+        bool(c.eq(t, float(x))) for t, x in zip(ets, cuts)),
+            'sequence_note_frames: event times are the distinct interior '
+            'onset / offset times, ascending')
+    ho, hn = frames['has_onsets'], frames['has_notes']
+    ok_shape = (len(ho) == F and len(hn) == F and all(
+        len(ho[f]) == len(exp_pitches) and len(hn[f]) == len(exp_pitches)
+        for f in range(F)))
+    c.check(ok_shape, 'sequence_note_frames: matrices are frames x pitches')
+    if ok_shape and len(ets) == len(cuts):
+      want_ho = [[any(ok and q == p and s == f_start[f]
+                      for (q, s, _), ok in zip(co, is_pitched))
+                  for p in exp_pitches] for f in range(F)]
+      want_hn = [[any(ok and q == p and s <= f_start[f] and e >= f_end[f]
+                      for (q, s, e), ok in zip(co, is_pitched))
+                  for p in exp_pitches] for f in range(F)]
+      c.check([[bool(x) for x in row] for row in ho] == want_ho,
+              'sequence_note_frames: has_onsets marks exactly the frames '
+              'in which a note of the pitch starts')
+      c.check([[bool(x) for x in row] for row in hn] == want_hn,
+              'sequence_note_frames: has_notes marks exactly the frames '
+              'in which a note of the pitch sounds')
+  if not exp_pitches:
+    untouched('nothing is added to a sequence without pitched notes')
+    c.check('k_args' not in frames and 'path' not in frames,
+            'no inference without pitched notes')
+    c.cover('no pitched note at all', True)
+    return
+  # ---- what reaches the model builders and the kernel
+  c.check('fm_args' in frames and 'k_args' in frames,
+          'frame model and kernel are both used')
+  if 'fm_args' not in frames or 'k_args' not in frames:
+    return
+  fp, fho, fhn, fdur = frames['fm_args']
+  c.check(fp is frames['pitches'] or list(fp) == list(frames['pitches']),
+          'the frame model gets the pitches of sequence_note_frames')
+  def bools(m):
+    return [[bool(x) for x in row] for row in m]
+
+  c.check(bools(fho) == bools(frames['has_onsets']) and
+          bools(fhn) == bools(frames['has_notes']),
+          'the frame model gets has_onsets / has_notes in this order')
+  c.check(len(fdur) == F and all(
+      bool(c.eq(fdur[f], float(f_end[f] - f_start[f]))) for f in range(F)),
+          'frame durations are the lengths of the frames (the last frame '
+          'ends at total_time)')
+  kp, kfl, ktl = frames['k_args']
+  c.check([c.concretize(p) for p in kp] == exp_pitches,
+          'the kernel gets the ascending pitch list')
+  P = len(exp_pitches)
+  c.check(len(kfl) == F and all(
+      len(kfl[f]) == 1 + 2 * P and all(
+          abs(kfl[f][s_] + (1.0 + 100 * f + s_)) < 1e-9
+          for s_ in range(1 + 2 * P)) for f in range(F)),
+          'the kernel gets the frame log-likelihoods of the frame model')
+  idx = [0] + [p + 1 for p in exp_pitches] + [128 + p + 1 for p in exp_pitches]
+  c.check(len(ktl) == len(idx) and all(
+      len(ktl[a]) == len(idx) and all(
+          abs(ktl[a][b] - math.log(1.0 + 300 * idx[a] + idx[b])) < 1e-9
+          for b in range(len(idx))) for a in range(len(idx))),
+          'the kernel gets the log of the transition sub-matrix of exactly '
+          'rest / onset(p) / sustain(p) for the pitches present')
+  # ---- the notes written for the chosen path
+  onsets = set((p, s) for (p, s, _), ok in zip(co, is_pitched) if ok)
   c.check(len(seq.notes) >= N and all(
       bool(c.And(c.eq(n.pitch, p), c.eq(n.start_time, sk * 0.25),
                  c.eq(n.end_time, ek * 0.25), c.eq(n.instrument, i)))
       for n, (p, sk, ek, i) in zip(seq.notes, orig)),
           'the notes of the sequence are untouched')
+  c.check(all(bool(c.And(c.eq(n.velocity, 80), c.eq(n.is_drum, d),
+                         c.eq(n.program, g)))
+              for n, (d, g) in zip(seq.notes, kind_of)) and
+          bool(c.eq(seq.total_time, tk * 0.25)),
+          'velocity / drum flag / program of the notes and total_time of the '
+          'sequence are untouched')
   mel = []
   for n in list(seq.notes)[N:]:
     c.check(bool(c.eq(n.instrument, want_inst)), 'added notes are melody notes')
+    c.check(bool(c.eq(n.velocity, mi.MELODY_VELOCITY)) and
+            1 <= mi.MELODY_VELOCITY <= 127 and not bool(n.is_drum),
+            'melody notes are pitched notes with velocity MELODY_VELOCITY (a '
+            'sounding MIDI velocity)')
     s, e = None, None
     for k in range(0, K + 1):
       if bool(c.eq(n.start_time, k * 0.25)):
@@ -543,8 +974,23 @@ def h_melody_notes(c):
     c.check(0 <= s <= e <= total, 'melody note lies within the sequence')
   for (_, _, e1), (_, s2, _) in zip(mel, mel[1:]):
     c.check(e1 <= s2, 'melody notes do not overlap, in time order')
-  n_onsets = sum(1 for ev in frames.get('path', []) if ev != mi.REST and ev[1])
+  path = frames.get('path', [])
+  n_onsets = sum(1 for ev in path if ev != mi.REST and ev[1])
   c.check(len(mel) == n_onsets, 'one melody note per onset event of the path')
+  # the melody line of the path: an onset in frame f sounds until the start of
+  # the first later frame that is a rest or a new onset, else to total_time
+  want_mel = []
+  if len(path) == F:
+    for f, ev in enumerate(path):
+      if ev == mi.REST or not ev[1]:
+        continue
+      stop = [g for g in range(f + 1, F)
+              if path[g] == mi.REST or path[g][1]]
+      want_mel.append((ev[0], f_start[f], f_start[stop[0]] if stop else total))
+  c.check(len(path) == F and sorted(mel) == sorted(want_mel),
+          'the melody notes are exactly the line of the chosen path: pitch of '
+          'the onset, from the start of its frame to the end of its last '
+          'sustained frame')
   c.cover('two melody notes', len(mel) >= 2)
   c.cover('a rest between melody notes',
           any(e1 < s2 for (_, _, e1), (_, s2, _) in zip(mel, mel[1:])))
@@ -556,7 +1002,8 @@ HARNESSES = {'h_melody_viterbi': h_melody_viterbi,
              'h_chord_wiring': h_chord_wiring,
              'h_melody_wiring': h_melody_wiring,
              'h_melody_viterbi_wide': h_melody_viterbi_wide,
-             'h_chord_viterbi': h_chord_viterbi}
+             'h_chord_viterbi': h_chord_viterbi,
+             'h_chord_viterbi_steps': h_chord_viterbi_steps}
 
 
 def jobs(tier):
@@ -568,7 +1015,12 @@ def jobs(tier):
 
   for (t, p) in [(1, 1), (2, 1), (3, 1), (2, 2)]:
     add('h_melody_viterbi', T=t, P=p)
+  add('h_melody_viterbi', T=2, P=3)
   add('h_chord_viterbi', T=1)
+  add('h_chord_viterbi_steps', T=2, seed=0)
+  add('h_chord_viterbi_steps', T=2, seed=1)
+  add('h_chord_viterbi_steps', T=2, seed=2)
+  add('h_chord_viterbi_steps', T=2, seed=3)
   add('h_melody_viterbi_wide', first=256, budget=600)
   add('h_melody_viterbi_wide', first=255, budget=600)
   for add_keys in (False, True):
@@ -585,8 +1037,62 @@ def jobs(tier):
   # absolutely quantized sequence: beats (possibly duplicated) carry steps
   add('h_chord_annotations', mode='beats', K=3, B=3, sps=4, add_keys=False,
       keys=[0], chords=['N.C.', [0, '']], budget=900)
+  # explicit chords_per_bar that succeeds (overrides the default table)
+  add('h_chord_annotations', mode='bars', K=12, spq=4, qpm=120, ts=[4, 4],
+      cpb=1, add_keys=False)
+  add('h_chord_annotations', mode='bars', K=6, spq=4, qpm=120, ts=[4, 4],
+      cpb=4, add_keys=True)
+  add('h_chord_annotations', mode='bars', K=4, spq=4, qpm=120, ts=[5, 4],
+      cpb=5, add_keys=False)
+  # chords_per_bar without relative quantization
+  add('h_chord_annotations', mode='beats', K=3, B=1, cpb=2, add_keys=False)
+  add('h_chord_annotations', mode='beats', K=3, B=1, sps=4, cpb=2,
+      add_keys=False)
+  # the other entries of the default table, other tempi / resolutions
+  add('h_chord_annotations', mode='bars', K=8, spq=4, qpm=120, ts=[2, 4],
+      cpb=None, add_keys=False)
+  add('h_chord_annotations', mode='bars', K=8, spq=4, qpm=240, ts=[2, 2],
+      cpb=None, add_keys=False)
+  add('h_chord_annotations', mode='bars', K=8, spq=2, qpm=90, ts=[6, 8],
+      cpb=None, add_keys=True)
+  # neither chords_per_bar nor add_key_signatures passed: documented defaults
+  add('h_chord_annotations', mode='bars', K=8, spq=4, qpm=120, ts=[4, 4],
+      omit_cpb=True, add_keys='omit')
+  add('h_chord_annotations', mode='beats', K=3, B=1, omit_cpb=True,
+      add_keys='omit')
+  # a sequence that already has chords; a second call
+  add('h_chord_annotations', mode='bars', K=8, spq=4, qpm=120, ts=[4, 4],
+      cpb=None, add_keys=True, pre_chord=True)
+  add('h_chord_annotations', mode='beats', K=3, B=1, add_keys=False,
+      pre_chord=True)
+  add('h_chord_annotations', mode='bars', K=8, spq=4, qpm=120, ts=[4, 4],
+      cpb=None, add_keys=True, twice=True)
+  add('h_chord_annotations', mode='beats', K=3, B=1, add_keys=False,
+      twice=True)
+  # the length limit (module constant lowered for the run)
+  add('h_chord_annotations', mode='bars', K=12, spq=4, qpm=120, ts=[4, 4],
+      cpb=None, add_keys=False, max_chords=2)
+  add('h_chord_annotations', mode='beats', K=3, B=2, add_keys=False,
+      max_chords=2)
+  # relative quantization wins over beat annotations; absolute quantization
+  # without beats is rejected
+  add('h_chord_annotations', mode='bars', K=8, B=1, spq=4, qpm=120, ts=[4, 4],
+      cpb=None, add_keys=False)
+  add('h_chord_annotations', mode='beats', K=3, B=0, sps=4, add_keys=False)
+  # other roots / chord kinds / keys
+  add('h_chord_annotations', mode='bars', K=4, spq=4, qpm=120, ts=[4, 4],
+      cpb=4, add_keys=True, keys=[11, 1],
+      chords=[[11, 'm7b5'], [1, 'maj7'], [6, '+'], [3, 'dim'], [10, '7'],
+              [8, 'm7']])
+  # beat steps that are not time * steps_per_second: copied from the beat
+  add('h_chord_annotations', mode='beats', K=3, B=2, sps=4, add_keys=False,
+      beat_step=[10, 3], keys=[0], chords=['N.C.', [0, '']])
   add('h_chord_wiring', calls=[[0.5, 0.001, 0.5], [0.01, 0.001, 0.5],
                                [0.01, 0.002, 0.5], [0.01, 0.002, 0.25]])
+  add('h_chord_wiring', calls=[None, [0.02, 0.003, 0.4, 7.0], None,
+                               [0.02, 0.003, 0.4, 0.0]])
+  add('h_melody_wiring', calls=[None])
+  add('h_melody_wiring', calls=[[2.5, 0.3, 1e-13, 1e-14, 0.0], None])
   add('h_melody_wiring', calls=[[2.0, 0.1, 1e-3, 1e-4, 1e-5],
                                 [3.0, 0.1, 1e-3, 1e-4, 1e-5],
                                 [3.0, 0.2, 2e-3, 1e-4, 1e-5],
@@ -595,6 +1101,16 @@ def jobs(tier):
   add('h_melody_notes', N=1, K=3)
   add('h_melody_notes', N=1, K=3, pitches=[0, 127])  # the ends of the range
   add('h_melody_notes', N=2, K=3, budget=900)
+  # drum / unpitched-program notes are no melody material (program 95 and 104
+  # are pitched); the second note may sit on the would-be melody instrument
+  add('h_melody_notes', N=1, K=2,
+      kinds=[[[False, 0], [True, 0], [False, 96], [False, 127], [False, 95]]])
+  add('h_melody_notes', N=2, K=2, instruments=[0, 1], budget=900,
+      kinds=[[[False, 0]], [[True, 0], [False, 103], [False, 112]]])
+  add('h_melody_notes', N=0, K=2)
+  for q in ('spq', 'sps'):
+    add('h_melody_notes', N=1, K=2, quant=q)
+  add('h_melody_notes', N=1, K=3, max_frames=2)
   if tier == 'thorough':
     for add_keys in (False, True):
       add('h_chord_annotations', mode='beats', K=5, B=3, add_keys=add_keys,
@@ -604,8 +1120,14 @@ def jobs(tier):
     add('h_chord_annotations', mode='bars', K=9, spq=2, qpm=90, ts=[6, 8],
         cpb=None, add_keys=True, budget=1800)
     add('h_melody_notes', N=2, K=4, budget=3000)
+    add('h_melody_notes', N=2, K=3, max_frames=2, budget=1800)
+    add('h_melody_notes', N=2, K=3, instruments=[0, 1, 8, 10], budget=3000,
+        kinds=[[[False, 0]], [[True, 0], [False, 103], [False, 112],
+                              [False, 104]]])
     add('h_melody_notes', N=3, K=3, budget=3000, required=False)
     add('h_melody_viterbi', T=4, P=1, budget=1800)
     add('h_melody_viterbi', T=3, P=2, budget=3000, required=False)
     add('h_chord_viterbi', T=2, budget=3000, required=False)
+    add('h_chord_viterbi_steps', T=2, seed=2, sym0=True, budget=1800)
+    add('h_chord_viterbi_steps', T=3, seed=3, budget=1800)
   return J
